@@ -8,7 +8,7 @@
 (*  "sec"   section order / overriding: defaults, atom types, bond types, nonbond_params, valued defines, tables   *)
 (*          coming from (nested) includes, conditionals on a valued macro and on a never-defined macro            *)
 (*  "mols"  [ molecules ] lists with repeated names and counts 0..3 over three molecule types                     *)
-(*  "split" [ molecules ] entries spread over several files (finding molecules-per-file)                          *)
+(*  "split" [ molecules ] entries spread over several files (repaired finding F16 molecules-per-file)            *)
 EXTENDS TopRead, Json
 
 CONSTANTS Which, MaxChunks,
@@ -85,7 +85,7 @@ MCSpec == MCInit /\ [][Next]_vars
 
 \* every generated input is inside the domain of the property
 DomainOK == done => InDomain(FsOf(inp), MainOf(inp)) /\ (Which \in {"mols", "split"} => DeclaredBefore(Flat(FsOf(inp), MainOf(inp))))
-\* [ molecules ] in one file only: the sub-domain in which the per-file instantiation of the tree is unobservable
+\* [ molecules ] in one file only: the sub-domain in which the per-file instantiation (DevMolsPerFile) is unobservable
 MolsOneFile == Cardinality({f \in DOMAIN FS : \E i \in 1..Len(FS[f]) : FS[f][i].k = "mols"}) <= 1
 SameOneFile == MolsOneFile => Same
 
